@@ -87,6 +87,7 @@ type SpecFile struct {
 // Define is a non-recursive specification macro: define name(p T, ...) R = expr
 type Define struct {
 	Name   string
+	Pkg    string // import path of the package whose contract file states it ("" for trusted specs)
 	Params []QVar
 	Result string
 	Body   Expr
@@ -192,6 +193,7 @@ func ParseSpecFile(path string, pkgName string) (*SpecFile, error) {
 				errs = append(errs, fmt.Sprintf("%s:%d: %v", path, ln, err))
 				continue
 			}
+			d.Pkg = pkgName
 			sf.Defines = append(sf.Defines, d)
 		case "impl":
 			f := strings.Fields(rest)
